@@ -396,6 +396,14 @@ Proof.
   - intros H; exists r; split; [exact H|apply Nat.eqb_refl].
 Qed.
 
+Lemma rank_eqkey_rid : forall k x y, rank_lt k x y -> rkey x = rkey y -> rid x < rid y.
+Proof.
+  intros k x y H E. unfold rank_lt, rank_ltb in H. destruct k.
+  - apply Nat.ltb_lt; exact H.
+  - rewrite E, key_lt_irrefl in H. simpl in H. apply andb_true_iff in H. destruct H as [_ H]. apply Nat.ltb_lt; exact H.
+  - rewrite E, key_lt_irrefl in H. simpl in H. apply andb_true_iff in H. destruct H as [_ H]. apply Nat.ltb_lt; exact H.
+Qed.
+
 (* ================================================================================================ *)
 (* 4. the invariant                                                                                 *)
 
@@ -412,7 +420,10 @@ Record QI (k : kind) (cap : nat) (s : state) (q : list req) : Prop := mkQI {
   i_sorted : rsorted k q;
   i_strict : forall i, In i (intrs s) -> key_ltb (rkey (iby i)) (rkey (ivictim i)) = true /\ rpre (iby i) = true;
   i_nointr : k <> KPreempt -> intrs s = [];
-  i_since : forall r, In r (users s) -> exists t, rsince r = Some t /\ (t <= now s)%Z
+  i_since : forall r, In r (users s) -> exists t, rsince r = Some t /\ (t <= now s)%Z;
+  (* equal keys: users are in arrival order, and arrived before everybody of that key who still waits *)
+  i_uu : StronglySorted (fun a b => rkey a = rkey b -> rid a < rid b) (users s);
+  i_uq : forall u h, In u (users s) -> In h q -> rkey u = rkey h -> rid u < rid h
 }.
 
 (* free slot and a waiter => a Release of this resource is triggered and not yet processed *)
@@ -462,6 +473,11 @@ Proof.
   - exact i_nointr0.
   - intros r Hr. apply in_app_or in Hr. destruct Hr as [Hr|[<-|[]]]; [apply i_since0; exact Hr|].
     exists (now s); split; [reflexivity|lia].
+  - apply sorted_snoc; [exact i_uu0|]. intros u Hu E. apply (i_uq0 u e Hu (or_introl eq_refl) E).
+  - intros u h Hu Hh E. apply in_app_or in Hu. destruct Hu as [Hu|[<-|[]]].
+    + apply (i_uq0 u h Hu (or_intror Hh) E).
+    + inversion i_sorted0 as [|? ? _ He]; subst. rewrite Forall_forall in He.
+      apply (rank_eqkey_rid k e h (He h Hh) E).
 Qed.
 
 Lemma grant_act_ok : forall k cap act s e q, QI k cap s (e :: q) -> act_ok k act s (e :: q) -> act_ok k act (grant_state s e) q.
@@ -493,6 +509,8 @@ Proof.
   - intros i Hi. apply in_app_or in Hi. destruct Hi as [Hi|[<-|[]]]; [apply i_strict0; exact Hi|]. simpl. split; assumption.
   - intros Hc; congruence.
   - intros r Hr. apply i_since0. eapply remove_id_in; exact Hr.
+  - apply remove_id_sorted; exact i_uu0.
+  - intros u h Hu Hh E. apply (i_uq0 u h); [eapply remove_id_in; exact Hu|exact Hh|exact E].
 Qed.
 
 Lemma evict_act_ok : forall act s w e b q, act_ok KPreempt act s q -> act_ok KPreempt act (evict_state s w e b) q.
@@ -629,6 +647,8 @@ Proof.
     + exact i_strict0.
     + exact i_nointr0.
     + intros x Hx. apply i_since0. eapply remove_id_in; exact Hx.
+    + apply remove_id_sorted; exact i_uu0.
+    + intros u h Hu Hh E. apply (i_uq0 u h); [eapply remove_id_in; exact Hu|exact Hh|exact E].
   - intros _ _. exists (next_id s). simpl. apply in_or_app; right; left; reflexivity.
 Qed.
 
@@ -670,6 +690,9 @@ Proof.
     + exact i_strict0.
     + exact i_nointr0.
     + exact i_since0.
+    + exact i_uu0.
+    + intros u h Hu Hh E. apply enqueue_in in Hh. destruct Hh as [->|Hh]; [|exact (i_uq0 u h Hu Hh E)].
+      simpl. apply i_fresh0. apply in_or_app; left; exact Hu.
   - intros _ u Hu Hp. simpl in Hu. assert (In u (users s ++ queue s)) by (apply in_or_app; left; exact Hu).
     specialize (Hadm u H). apply negb_true_iff, Nat.eqb_neq in Hadm. congruence.
 Qed.
@@ -693,7 +716,8 @@ Proof.
       - apply nodup_remove_r; assumption.
       - intros y Hy. apply i_fresh0. apply in_app_or in Hy. apply in_or_app. destruct Hy as [Hy|Hy]; [left; exact Hy|right; eapply remove_id_in; exact Hy].
       - intros y Hy. apply i_qg0. eapply remove_id_in; exact Hy.
-      - apply remove_id_sorted; assumption. }
+      - apply remove_id_sorted; assumption.
+      - intros u h0 Hu Hh0 E. apply (i_uq0 u h0 Hu); [eapply remove_id_in; exact Hh0|exact E]. }
     assert (Hact : act_ok k (Some p) (set_queue s (remove_id r (queue s))) (remove_id r (queue s))).
     { intros _ u Hu Hp. simpl in Hu. exfalso. destruct HI.
       apply (nodup_app_neq rproc _ _ u x i_procs0 Hu Hx). congruence. }
@@ -1004,6 +1028,34 @@ Proof.
     split; [exact Hu|]. split; [exact H1|]. split; [exact H2|]. rewrite Hd.
     change (rpre e) with pre.
     destruct (pre && key_ltb (rkey e) (rkey w)); unfold set_queue, preempted_state, s0, bump_id; simpl; rewrite i_getq0; reflexivity.
+Qed.
+
+Lemma sorted_mid : forall (R : req -> req -> Prop) l1 x l2 y, StronglySorted R (l1 ++ x :: l2) -> In y l2 -> R x y.
+Proof.
+  intros R l1 x l2 y; induction l1 as [|a t IH]; intros H Hy; simpl in *.
+  - inversion H as [|? ? _ Hx]; subst. rewrite Forall_forall in Hx. apply Hx; exact Hy.
+  - inversion H; subst. apply IH; assumption.
+Qed.
+Lemma sorted_pre : forall (R : req -> req -> Prop) l1 x l2 y, StronglySorted R (l1 ++ x :: l2) -> In y l1 -> R y x.
+Proof.
+  intros R l1 x l2 y H Hy. apply (sorted_app_lt R l1 (x :: l2) y x H Hy). left; reflexivity.
+Qed.
+
+(* the user that a preempting request evicts -- the last one of maximal key in users -- is the worst-ranked
+   current user under the full rank (priority, time, preempting first, arrival): every other user ranks before it *)
+Theorem victim_is_worst_ranked : forall cap t0 acts s w u, 1 <= cap -> run KPreempt cap (init t0) acts = Some s ->
+  worst (users s) = Some w -> In u (users s) -> u = w \/ rank_ltb KPreempt u w = true.
+Proof.
+  intros cap t0 acts s w u Hcap Hr Hw Hu.
+  destruct (reach_Inv KPreempt cap t0 acts s Hcap Hr) as [HI _]. destruct HI.
+  rewrite worst_lastmax in Hw. apply lastmax_spec in Hw. destruct Hw as (l1 & l2 & E & H1 & H2).
+  rewrite E in Hu. apply in_app_or in Hu. destruct Hu as [Hu|[Hu|Hu]].
+  - right. unfold rank_ltb. destruct (key_ltb (rkey u) (rkey w)) eqn:Elt; [reflexivity|].
+    assert (Ek : rkey u = rkey w) by (apply key_total; [exact Elt|apply H1; exact Hu]).
+    rewrite Ek, key_eqb_refl. simpl. apply Nat.ltb_lt.
+    rewrite E in i_uu0. exact (sorted_pre _ l1 w l2 u i_uu0 Hu Ek).
+  - left; symmetry; exact Hu.
+  - right. unfold rank_ltb. rewrite (H2 u Hu). reflexivity.
 Qed.
 
 (* over every history: whoever was evicted ranked strictly worse than the preempting request that took the slot *)
